@@ -297,16 +297,10 @@ def runif(n, min=0.0, max=1.0, seed=None):
     else:
         rvs = test_seed(seed).uniform
 
-    if seed:
-        if n > 1:
-            return st.uniform.rvs(loc=min, scale=max-min, size=n)
-        else:
-            return st.uniform.rvs(loc=min, scale=max-min, size=n)[0]
+    if n > 1:
+        return rvs(low=min, high=max, size=n)
     else:
-        if n > 1:
-            return rvs(low=min, high=max, size=n)
-        else:
-            return rvs(low=min, high=max, size=n)[0]
+        return rvs(low=min, high=max, size=n)[0]
         
 ##### beta distribution
 # To do: write these in the same format as above with seeds
